@@ -369,6 +369,137 @@ def i8(ctx, rid):
         raise core.AnchorLost('from_records impls')
 
 
+def i9(ctx, rid):
+    """index regeneration reads each record where the writer put it (C05.V7 instances): a mislocated data read quarantines a
+    valid blob when data validation is on"""
+    import props.c05 as c05
+    c05.v7(ctx, rid)
+
+
+def eof_discr(prog):
+    """discriminant value of std::io::ErrorKind::UnexpectedEof, read from an aggregate of the classification helper"""
+    for f in prog.fns.values():
+        if 'into_bincode_if_unexpected_eof' not in f.id:
+            continue
+        for b in f.blocks:
+            for st in b['s']:
+                if st['k'] == 'a' and st['r']['k'] == 'agg' and st['r'].get('adt') == 'std::io::ErrorKind' and st['r'].get('variant') == 'UnexpectedEof' and 'vd' in st['r']:
+                    return st['r']['vd']
+    return None
+
+
+def propagated_io_kinds(prog):
+    """(handler fn, 'ALL' | set of discriminants) : which io::ErrorKind values make the index-open error handler in Blob::from_file
+    give up (return Err) instead of regenerating the index"""
+    for f in prog.fns.values():
+        if not f.id.startswith('blob::core::Blob::<K>::from_file::{closure#0}::{closure') or f.is_coroutine:
+            continue
+        dc = [c for c in f.calls if c.name == 'downcast_ref' and 'std::io::Error' in c.full]
+        if not dc:
+            continue
+        errs = [bb for (bb, k, _) in core.exit_defs(f) if k == 'err' and bb in f.reachable()]
+        if not errs:
+            return f, set()
+        kinds = [c for c in f.calls if c.name == 'kind' and c.path.startswith('std::io::Error')]
+        vals = set()
+        allk = False
+        for e in errs:
+            # is the Err exit reachable without passing a switch on the kind?
+            sw = []
+            for k in kinds:
+                for i in f.reachable():
+                    t = f.blocks[i]['t']
+                    if t['k'] == 'switch':
+                        for (bb, si, kind, r) in f.defs().get(op_local(t['o']), []):
+                            if kind == 'assign' and r['k'] == 'discr' and r['p'][0] == k.dest[0]:
+                                sw.append(i)
+            if not sw or e in f.reach_from([0], avoid_exit=sw):
+                allk = True
+                continue
+            for i in sw:
+                t = f.blocks[i]['t']
+                for v, tg in t['vals']:
+                    if e in f.reach_from([tg]):
+                        vals.add(v)
+                if e in f.reach_from([t['otherwise']]):
+                    allk = True
+        return f, ('ALL' if allk else vals)
+    return None, None
+
+
+def _converted(prog, f, c, depth):
+    """the error of call c (in f) passes into_bincode_if_unexpected_eof before it leaves - in f, or at every call site of f"""
+    carry = core.result_flow(f, c)
+    for m in f.calls:
+        if m.name == 'map_err' and m.args and op_local(m.args[0]) in carry:
+            for a in m.args[1:]:
+                l = op_local(a)
+                if l is not None and f.locals[l].get('h') == 'closure' and any(x.name == 'into_bincode_if_unexpected_eof' for x in prog.fns[f.locals[l]['a'][0]].calls):
+                    return True
+        if m.name == 'into_bincode_if_unexpected_eof' and m.args and op_local(m.args[0]) in carry:
+            return True
+    if depth <= 0:
+        return False
+    target = f.parent if (f.is_coroutine and f.parent in prog.fns) else prog.fns[f.id].root
+    cs = []
+    for t in {target, prog.fns[target].root if target in prog.fns else target}:
+        cs += [x for x in core.call_sites_of(prog, t) if x.name != 'poll']
+    # trait impl methods are called through the trait path
+    if not cs and prog.fns.get(target) is not None and prog.fns[target].trait_item:
+        nm = target.split('::')[-1]
+        for g in prog.fns.values():
+            for x in g.calls:
+                if x.name == nm and target in prog.resolve(x):
+                    cs.append(x)
+    if not cs:
+        return False
+    return all(_converted(prog, x.fn, x, depth - 1) for x in cs)
+
+
+def i10(ctx, rid):
+    """an index file that cannot be read to the end (empty or cut: what a dropped close() / a crash during the dump leaves) is
+    regenerated, never a reason to fail the open: EITHER every index-file read of the open path converts UnexpectedEof into the
+    Bincode class, OR the error handler of Blob::from_file does not give up on io errors of kind UnexpectedEof.  Only both
+    missing together break the open."""
+    prog = ctx.prog
+    h, kinds = propagated_io_kinds(prog)
+    if h is None:
+        raise core.AnchorLost('index-open error handler in Blob::from_file')
+    eof = eof_discr(prog)
+    if eof is None:
+        raise core.AnchorLost('ErrorKind::UnexpectedEof discriminant')
+    gives_up_on_eof = kinds == 'ALL' or eof in kinds
+    # unconverted index-file reads reachable from the open path
+    L, E = prog.may_reach()
+    roots = [f.id for f in prog.fns.values() if f.id.endswith('IndexStruct::<FileIndex, K>::from_file')]
+    if not roots:
+        raise core.AnchorLost('IndexStruct::from_file')
+    reach = set(roots)
+    for r in roots:
+        reach |= set(L.get(r, ()))
+    n = 0
+    raw = []
+    for fid in sorted(reach):
+        f = prog.fns[fid]
+        if not f.file.startswith('src/blob/index/'):
+            continue
+        for c in f.calls:
+            if c.bb not in f.reachable() or c.name not in ('read_exact_at_allocate', 'read_exact_at', 'read_all') or 'File' not in c.path or c.crate != 'pearl':
+                continue
+            n += 1
+            conv = _converted(prog, f, c, 2)
+            if not conv:
+                raw.append(c)
+    if n < 4:
+        raise core.AnchorLost('index-file reads in the open path: %d' % n)
+    key = 'short-index-file-is-regenerated'
+    if gives_up_on_eof and raw:
+        ctx.bad(rid, key, raw[0].where(), 'the index read at this site propagates a raw io::Error(UnexpectedEof) and the error handler of Blob::from_file (%s) gives up on %s io errors: an empty or cut index file - what a dropped close() future or a crash during the dump leaves behind - makes Storage::init fail instead of regenerating the index' % (h.where(), 'all' if kinds == 'ALL' else 'UnexpectedEof'),
+                witness=[c.where() for c in raw[:6]])
+    else:
+        ctx.ok(rid, key, h.where(), 'handler gives up only on kinds %s; %d of %d index reads in the open path are unconverted' % ('ALL' if kinds == 'ALL' else sorted(kinds), len(raw), n))
+
+
 RULES = [
     Rule('C03.I1', 'State::OnDisk is built from an opened file only after validate() ok with the blob file size as operand', i1, 2),
     Rule('C03.I2', 'every index gate tests written bit, version, key size, blob size (by equality) and magic with an error edge', i2, 5),
@@ -377,5 +508,7 @@ RULES = [
     Rule('C03.I5', 'the index gate compares the file size with the extent implied by the header', i5, 1),
     Rule('C03.I6', 'the in-memory header map is written only by IndexStruct::push and its constructors; regeneration inserts through push', i6, 3),
     Rule('C03.I7', 'new blob ids are above every id ever present (C07.H6 instances)', i7, 3),
+    Rule('C03.I9', 'the regeneration scan locates record data after header and meta (C05.V7 instances)', i9, 1),
+    Rule('C03.I10', 'a short (empty / cut) index file is regenerated: UnexpectedEof is converted at the read, or the open-error handler does not give up on it', i10, 1),
     Rule('C03.I8', 'the index file is written in two phases: the written flag is set only after the body append completed', i8, 1),
 ]
